@@ -29,9 +29,9 @@ def snapshot():
 results = []
 
 
-async def session(port):
+async def session(port, requests=None, results=results):
     client = AsyncHTTPClient()
-    for r in job['requests']:
+    for r in (job['requests'] if requests is None else requests):
         before = snapshot()
         req = HTTPRequest('http://127.0.0.1:%d%s' % (port, r['path']), method=r['method'],
                           body=(r.get('body') or '').encode('utf8') if r['method'] == 'POST' else None,
@@ -62,6 +62,21 @@ def main():
                 st.name = name
                 streams[k] = st
         params['difftool_args'] = streams
+    # other servers of this process, started (and used) before the one under observation
+    for warm in job.get('warmup', []):
+        wapp = make_app(**warm['params'])
+        wsockets = netutil.bind_sockets(0, '127.0.0.1')
+        wserver = httpserver.HTTPServer(wapp)
+        wserver.add_sockets(wsockets)
+        wtask = loop.create_task(session(wsockets[0].getsockname()[1], warm['requests'], []))
+        wtask.add_done_callback(lambda t: loop.stop())
+        loop.run_forever()
+        if not wtask.done():
+            try:
+                loop.run_until_complete(asyncio.wait_for(asyncio.shield(wtask), 2))
+            except Exception:
+                pass
+        wserver.stop()
     app = make_app(**params)
     sockets = netutil.bind_sockets(0, '127.0.0.1')
     server = httpserver.HTTPServer(app)
